@@ -8,6 +8,8 @@
    as `absent`. *)
 From XcpModel Require Import Base Backup Walker Meta Ops.
 From XcpProofs Require Import OpsProofs.
+From XcpModel Require Import ConcBlock ConcFault.
+From XcpProofs Require Import ConcFaultProofs.
 
 (* a failing step outside the known class is always reported (error exit);
    xattr and ownership failures are the documented tolerated warnings *)
@@ -31,6 +33,22 @@ Theorem C04_tolerated_fault_continues : forall l i a b,
   In b (fst (with_fault l i)).
 Proof. exact tolerated_fault_continues. Qed.
 
+(* at the level of the whole run (ConcFault.v: every thread of both drivers, failures as labels): for
+   EVERY interleaving and every number and placement of failing steps — in the walker, the dispatcher, an
+   operation taken by a worker, a block job — the process exits with status 0 only if NO step failed, and
+   then all the work has been done: nothing is left unwalked, queued or running.  (A failure is visible
+   to main either as an Error update, which it acts on before it can see the channel close, or through
+   the Err that the driver thread returns from its joins.) *)
+Theorem C04_parblock_exit0_means_no_failure_and_complete : forall W Q ops s,
+  xreachable W Q ops s -> x_main s = MExit true ->
+  x_failed s = false /\ x_todo s = [] /\ x_fq s = [] /\ x_pq s = 0%nat /\ x_run s = 0%nat /\ x_disp s = XDone.
+Proof. exact x_exit_ok_sound. Qed.
+
+Theorem C04_parfile_exit0_means_no_failure_and_complete : forall W ops s,
+  yreachable W ops s -> y_main s = MExit true ->
+  y_failed s = false /\ y_todo s = [] /\ y_busy s = [] /\ ((1 <= W)%nat -> y_fq s = []).
+Proof. exact y_exit_ok_sound. Qed.
+
 (* the known class is genuinely violated (witness replayed on the real binary
    with an injected EIO on fsync: exit 0) *)
 Check fault_in_finalisation_refuted.
@@ -38,3 +56,5 @@ Check fault_in_finalisation_refuted.
 Print Assumptions C04_fault_sound.
 Print Assumptions C04_exit_ok_classified.
 Print Assumptions C04_tolerated_fault_continues.
+Print Assumptions C04_parblock_exit0_means_no_failure_and_complete.
+Print Assumptions C04_parfile_exit0_means_no_failure_and_complete.
